@@ -105,6 +105,9 @@ def check_property(pid, tier, seed):
                     unwind_fail.append(desc)
                 else:
                     panic_fail.append((desc, loc))
+            if unwind_fail and h.unwind_fail_refutes:
+                panic_fail.append((f"loop does not terminate within the stated bound ({unwind_fail[0]})", ""))
+                unwind_fail = []
             for o in local:
                 o.seconds = r.seconds
                 if o is pf:
